@@ -68,6 +68,13 @@ class RuleResult:
                     why = 'access to %s' % n.attr
                 elif isinstance(n, ast.Call) and isinstance(n.func, ast.Name) and n.func.id in ('vars', 'locals', 'globals'):
                     why = '%s()' % n.func.id
+                elif isinstance(n, ast.Call):
+                    # a call to a private helper of the package that could not be inlined (dynamic dispatch,
+                    # recursion, a return inside a loop): its body is part of this function's behaviour
+                    nm = n.func.attr if isinstance(n.func, ast.Attribute) else n.func.id if isinstance(n.func, ast.Name) else ''
+                    if nm.startswith('_') and not (nm.startswith('__') and nm.endswith('__')) and nm != fi.name and \
+                            _package_defines(repo, nm):
+                        why = 'a call to the private helper %s(), which was not inlined,' % nm
                 if why:
                     raise AnalysisError('%s: %s contains %s that is not written out; `%s` cannot be decided there'
                                         % (self.rule, f.function, why, f.construct[:60]))
@@ -77,6 +84,16 @@ class RuleResult:
             raise AnalysisError('%s matched %d instances, fewer than the %d confirmed by hand '
                                 '(rule would pass vacuously)' %
                                 (self.rule, len(self.instances), self.floor))
+
+
+def _package_defines(repo, name):
+    for m in repo.modules.values():
+        if name in m.functions:
+            return True
+        for c in m.classes.values():
+            if name in c.methods:
+                return True
+    return False
 
 
 def load_known():
